@@ -234,6 +234,14 @@ pub fn cases(refs: &Refs, quick: bool, warm: bool) -> Vec<Case> {
 		] {
 			texts.insert(extra.to_string());
 		}
+		// schemes that software commonly treats specially, in shapes that are valid URIs but not what
+		// the scheme's own syntax would call complete
+		for extra in [
+			"data:text/plain", "data:,", "data:;base64,QQ==", "DATA:x?a,b#c", "dat:text/plain", "data:a/./b", "http://h/", "http:", "https://h:443/p?q#f", "http+unix://h/p", "mailto:a@b", "urn:a:b", "file:///a", "file:a",
+			"about:blank", "javascript:void(0)", "ws://h", "tag:a,2000:b", "blob:http://h/x",
+		] {
+			texts.insert(extra.to_string());
+		}
 		// special scalars (white space that trim() strips, BOM, bidi / zero-width controls, case-mapping
 		// oddities, block boundaries) in first, inner and last position
 		for x in domains::special_scalars() {
